@@ -117,40 +117,51 @@ Proof.
   apply p_bind; [apply Hf|intros a; apply IH].
 Qed.
 
+Lemma p_guarded e lam close : P _ lam -> P _ (guarded_disj oracle e lam close).
+Proof.
+  intros Hl. unfold guarded_disj. apply p_bind; [apply p_nvars|intros nv]. cbv zeta.
+  apply p_bind; [exact Hl|intros la]. apply p_bind; [apply p_add|intros _].
+  apply p_bind; [apply p_solve|intros r].
+  apply p_bind; [destruct close; [apply p_add|apply p_ret]|intros _; apply p_ret].
+Qed.
 Lemma p_co_dc e g al : P _ (co_dc oracle thr e g al).
-Proof. unfold co_dc. pauto; try apply p_encode; try apply p_merged; try apply p_locals. Qed.
+Proof.
+  unfold co_dc. apply p_bind; [apply p_new|intros _]. apply p_bind; [apply p_merged|intros sc].
+  cbv zeta. apply p_bind; [apply p_encode|intros _].
+  apply p_bind; [apply p_guarded, p_locals|intros r; apply p_ret].
+Qed.
 Lemma p_co_dc_cert e g al : P _ (co_dc_cert oracle thr e g al).
 Proof.
-  unfold co_dc_cert. apply p_bind; [apply p_merged|intros sc].
+  unfold co_dc_cert. apply p_bind; [apply p_merged|intros sc]. cbv zeta.
   apply p_bind; [apply p_new|intros _]. apply p_bind; [apply p_encode|intros _].
-  apply p_bind; [apply p_nvars|intros nv]. apply p_bind; [apply p_locals|intros la].
-  apply p_bind; [apply p_add|intros _]. apply p_bind; [apply p_solve|intros r].
+  apply p_bind; [apply p_guarded, p_locals|intros r].
   destruct r; [|apply p_ret]. apply p_bind; [apply p_remaining|intros o; apply p_ret].
 Qed.
 
+Lemma p_st_cc c in_cc pol : P _ (st_cc oracle thr c in_cc pol).
+Proof.
+  unfold st_cc. apply p_bind; [apply p_new|intros _]. apply p_bind; [apply p_encode|intros _].
+  destruct in_cc as [|x xs].
+  - apply p_bind; [apply p_solve|intros m; apply p_ret].
+  - destruct pol.
+    + apply p_bind; [apply p_guarded, p_ret|intros m1]. destruct m1; [apply p_ret|].
+      apply p_bind; [apply p_solve|intros m2; apply p_ret].
+    + apply p_bind; [apply p_solve|intros m; apply p_ret].
+Qed.
 Lemma p_st_se g : P _ (st_se oracle thr g).
 Proof.
   unfold st_se. apply p_bind; [apply p_ccs|intros ccs].
   generalize (@nil nat) as merged.
-  induction ccs as [|c r IH]; intros merged; [apply p_ret|].
-  apply p_bind; [apply p_new|intros _]. apply p_bind; [apply p_encode|intros _].
-  apply p_bind; [apply p_solve|intros m]. destruct m; [apply IH|apply p_ret].
+  induction ccs as [|c r IH]; intros merged; cbn [st_se_loop]; [apply p_ret|].
+  apply p_bind; [apply p_st_cc|intros m]. destruct m as [[m acc]|]; [apply IH|apply p_ret].
 Qed.
-
 Lemma p_st_accept g al pol sou : P _ (st_accept oracle thr g al pol sou).
 Proof.
   unfold st_accept. apply p_bind; [apply p_ccs|intros ccs].
   generalize (negb pol) as found. generalize (@nil nat) as merged.
-  induction ccs as [|c r IH]; intros merged found; [destruct found; apply p_ret|].
-  apply p_bind; [apply p_new|intros _]. apply p_bind; [apply p_encode|intros _].
-  destruct (Encoders.filter_map (cc_local c) al) as [|x xs].
-  - apply p_bind; [apply p_solve|intros m]. destruct m; [apply IH|apply p_ret].
-  - destruct pol.
-    + apply p_bind; [apply p_nvars|intros nv]. apply p_bind; [apply p_add|intros _].
-      apply p_bind; [apply p_solve|intros m1]. apply p_bind; [apply p_add|intros _].
-      destruct m1; [apply IH|].
-      apply p_bind; [apply p_solve|intros m2]. destruct m2; [apply IH|apply p_ret].
-    + apply p_bind; [apply p_solve|intros m]. destruct m; [apply IH|apply p_ret].
+  induction ccs as [|c r IH]; intros merged found; cbn [st_accept_loop];
+    [destruct found; apply p_ret|].
+  apply p_bind; [apply p_st_cc|intros m]. destruct m as [[m acc]|]; [apply IH|apply p_ret].
 Qed.
 
 Lemma p_pr_max_in_cc fuel e c : P _ (pr_max_in_cc oracle thr fuel e c).
